@@ -245,54 +245,8 @@ func runC03(cx *CheckCtx) {
 				}
 				continue
 			}
-			req, inTable := tWitness[key]
-			req = retargetParams(m, req)
-			if !inTable {
-				// default obligation: every effect is gated by some witness
-				cx.Notes = append(cx.Notes, "unclassified method "+key)
-				req = [][]string{{"*"}}
-			}
+			req, inTable, _, _ := gateRule(cx, m)
 			subjects := allWitnessSubjects(a)
-			cx.count("effect_sites", len(effs))
-			if len(effs) == 0 {
-				cx.holds("gate", key, "no effect site reachable")
-			}
-			for _, s := range effs {
-				okAll := true
-				for _, disj := range req {
-					lits := witnessLits(a, disj)
-					ok, ex := gated(a, s, lits)
-					if ok {
-						continue
-					}
-					okAll = false
-					// diagnose: what does gate this effect?
-					var have []string
-					for id, sub := range subjects {
-						if g, _ := gated(a, s, []int32{id}); g {
-							have = append(have, sub)
-						}
-					}
-					sort.Strings(have)
-					detail := fmt.Sprintf("%s reaches %s on a path to the normal exit at %s without the required witness %s", key, effectDesc(a, s), exitPos(w, ex), strings.Join(disj, " ∨ "))
-					if len(have) > 0 {
-						detail += "; witnesses that do gate it: " + strings.Join(have, ", ")
-					}
-					for _, sub := range subjects {
-						if strings.HasPrefix(sub, "MULTISIG?") {
-							detail += "; " + sub
-							break
-						}
-					}
-					cx.violated("gate", key+"/"+siteConstruct(a, s), detail, s.Where(w), "required: "+strings.Join(disj, " ∨ "), "effect: "+s.Where(w), "exit: "+exitPos(w, ex))
-				}
-				if okAll {
-					cx.holds("gate", key+"/"+siteConstruct(a, s), "gated by "+reqString(req))
-					if len(cx.Samples) < 6 {
-						cx.sample(map[string]string{"method": key, "effect": effectDesc(a, s), "at": s.Where(w), "obligation": "every normal exit entails ¬executed ∨ " + reqString(req)})
-					}
-				}
-			}
 			// D2: no stronger than documented
 			if inTable && len(effs) > 0 {
 				var allowed []string
@@ -319,6 +273,10 @@ func runC03(cx *CheckCtx) {
 			}
 		}
 	}
+	// the 2/3+1 of the notary-disabled mode is collected by votes: the vote protocol (member
+	// voter, threshold, distinct counting, window) is part of "inert without its witnesses"
+	voteProtocol(cx, []string{"Cheque", "AlphabetUpdate", "SetConfig", "InnerRingCandidateRemove"})
+	runC17Common(cx, w)
 	cx.floor("nonsafe_methods", 68)
 	cx.floor("safe_methods", 70)
 	cx.floor("effect_sites", 190)
@@ -448,4 +406,63 @@ func retargetParams(m *Method, req [][]string) [][]string {
 		}
 	}
 	return out
+}
+
+// gateRule: every effect of m is gated, at every normal exit, by each required
+// disjunction of T-witness (DESIGN §4). Shared: C03 runs it for every non-safe
+// method, other properties re-run it for the methods their statement names.
+func gateRule(cx *CheckCtx, m *Method) (req [][]string, inTable bool, effs []*Site, a *Analysis) {
+	w := cx.W
+	key := m.String()
+	a = cx.analyze(&Query{Name: "gates", Root: m.Fn})
+	effs = a.RealEffects()
+	req, inTable = tWitness[key]
+	req = retargetParams(m, req)
+	if !inTable {
+		// default obligation: every effect is gated by some witness
+		cx.Notes = append(cx.Notes, "unclassified method "+key)
+		req = [][]string{{"*"}}
+	}
+	subjects := allWitnessSubjects(a)
+	cx.count("effect_sites", len(effs))
+	if len(effs) == 0 {
+		cx.holds("gate", key, "no effect site reachable")
+	}
+	for _, s := range effs {
+		okAll := true
+		for _, disj := range req {
+			lits := witnessLits(a, disj)
+			ok, ex := gated(a, s, lits)
+			if ok {
+				continue
+			}
+			okAll = false
+			// diagnose: what does gate this effect?
+			var have []string
+			for id, sub := range subjects {
+				if g, _ := gated(a, s, []int32{id}); g {
+					have = append(have, sub)
+				}
+			}
+			sort.Strings(have)
+			detail := fmt.Sprintf("%s reaches %s on a path to the normal exit at %s without the required witness %s", key, effectDesc(a, s), exitPos(w, ex), strings.Join(disj, " ∨ "))
+			if len(have) > 0 {
+				detail += "; witnesses that do gate it: " + strings.Join(have, ", ")
+			}
+			for _, sub := range subjects {
+				if strings.HasPrefix(sub, "MULTISIG?") {
+					detail += "; " + sub
+					break
+				}
+			}
+			cx.violated("gate", key+"/"+siteConstruct(a, s), detail, s.Where(w), "required: "+strings.Join(disj, " ∨ "), "effect: "+s.Where(w), "exit: "+exitPos(w, ex))
+		}
+		if okAll {
+			cx.holds("gate", key+"/"+siteConstruct(a, s), "gated by "+reqString(req))
+			if len(cx.Samples) < 6 {
+				cx.sample(map[string]string{"method": key, "effect": effectDesc(a, s), "at": s.Where(w), "obligation": "every normal exit entails ¬executed ∨ " + reqString(req)})
+			}
+		}
+	}
+	return
 }
